@@ -56,6 +56,15 @@ recorded second-order finding is about are multiplied by the zero residuals).  E
 Task degen_opts: see run_degen_opts (explicit degeneracy thresholds, near-degenerate pair the thresholds do not cover; symeig with / without M,
 svd, custom_exacteig / davidson, f64 / c128, first and second order, repeated backward passes).
 
+Task wide_spectrum (run_degen_opts with spec = "wide"): retrieved spectra spanning 2..8 orders of magnitude (largest |e| = S in 1e2 / 1e4 / 1e6,
+either sign; positive for svd, where the thresholds act on s^2), all eigenvalues simple: a pair (c g, (c + 1) g) with gap g = f (atol + rtol S), f < 1,
+i.e. closer than the degeneracy threshold evaluated at the LARGEST retrieved eigenvalue but >= 4 x the threshold evaluated at either member of the
+pair, fillers in geometric progression (ratio >= 3) up to S.  atol / rtol are the documented defaults or the caller's (rtol 1e-6 .. 1e-3, atol 0 ..
+1e-9).  "Relative difference between two eigenvalues" can only refer to the two eigenvalues compared: such a pair is not degenerate and a loss
+giving different weights to its two eigenvectors must get the perturbation-theory gradient with its 1/g terms (custom_exacteig / davidson, with /
+without M, svd, f64 / c128, neig = n and < n, both ends, first and second order, further backward passes).  Reference and tolerance as in degen_opts
+(autograd through a dense eigh / svd; 1e-6 + 1e4 eps S cond(M) / smallest gap <= 2e-3), relative to 1 + |ref|max.
+
 Recorded findings (SITES; generated only when known_findings.json lists the site, otherwise avoided by construction):
   second_order_at_degeneracy             second-order gradients are wrong by O(1) when a repeated eigenvalue lies in the selected set
                                          (custom_exacteig, davidson) or anywhere in the spectrum (exacteig / default, which differentiates
@@ -93,6 +102,10 @@ RULE = ("eig: pencils with prescribed spectra, gaps >= 0.3 between the selected 
         "degen_opts: near-degenerate pair (gap 2e-8..3e-7) not covered by the caller's explicit thresholds, loss distinguishing its two vectors; symeig "
         "with/without M and svd, custom_exacteig / davidson, f64 / c128, order 1 and 2, 0..3 further backward passes (same / full / one vector of the pair / "
         "values / the other pairs). "
+        "wide_spectrum: all-simple spectra spanning 2..8 decades (largest |e| 1e2 / 1e4 / 1e6 of either sign, geometric fillers, a pair with gap "
+        "f (atol + rtol max|e|), f in 0.02 / 0.1 / 0.5, >= 4x the threshold at the pair itself), default and caller-supplied thresholds (rtol 1e-6..1e-3, atol "
+        "0..1e-9), loss distinguishing every eigenvector; symeig with/without M and svd, custom_exacteig / davidson, f64 / c128, neig = n / n-1 / 3, both ends, order 1 "
+        "and 2, 0..2 further passes; non-trivial = reference non-zero and both members of the pair and a larger eigenvalue that would cover their gap are retrieved. "
         "Non-trivial = the reference gradient is non-zero and (neig < n or M given or a degenerate group is selected or order 2 or further passes were run); "
         "perfect fit: the reference second-order gradient is non-zero; distinct by canonical case.")
 ASSUMPTIONS = [
@@ -113,6 +126,12 @@ ASSUMPTIONS = [
     "degen_opts: reference = torch.linalg.eigh (Cholesky-reduced with M) / torch.linalg.svd + autograd, all eigenvalues simple; tolerance "
     "(1e-6 + 1e4 eps max(|e|,1) cond(M) / gap) (1 + |ref|max), second order x10: the backward shifts the eigenvalue by 1e-14 max(|e|,1), a relative error "
     "(cw_i + cw_j)/|cw_i - cw_j| 1e-14/gap <= 15e-14/gap for the generated weights (measured <= 1e3 eps/gap)",
+    "wide_spectrum: 'minimum relative difference between two eigenvalues to be treated as degenerate' refers to the magnitude of the two eigenvalues "
+    "compared: every two retrieved eigenvalues differ by >= 4 (degen_atol + degen_rtol max(|e_i|, |e_j|)), so no pair is degenerate whichever member "
+    "the threshold is evaluated at; same reference as degen_opts, tolerance (1e-6 + 1e4 eps max|e| cond(M) / smallest gap) (1 + |ref|max) (LAPACK mixes "
+    "two eigenvectors by eps |A| / gap; measured <= 1e-2 of it), second order x10; davidson: min_eps 1e-10 max(1, S/1e4) (absolute residual test, rounding "
+    "floor eps |A|); a davidson run whose vectors are not accurate to 1e3 eps |A| cond(M) / gap (it stopped on its residual test before the search space "
+    "was the full space) is discarded, forward accuracy being C05's subject",
 ]
 LEVEL_TEXT = ("Exploration against a closed-form perturbation-theory gradient evaluated on an independent LAPACK eigendecomposition, with the full "
               "dense matrix as leaf so that degeneracy-breaking directions are observable; second order against autograd-through-eigh or "
@@ -1170,6 +1189,32 @@ DEGEN_OPTS = {"zero": {"degen_atol": 0.0, "degen_rtol": 0.0}, "rzero": {"degen_r
               "tiny": {"degen_atol": 1e-13, "degen_rtol": 1e-12}}
 PAIR_ROW_KINDS = ["same", "full", "v0", "v1", "v0", "v1", "vals", "rest"]
 
+# task wide_spectrum: thresholds of the caller (or the defaults) on spectra spanning many orders of magnitude
+WIDE_OPTS = {"default": {}, "none": {"degen_atol": None, "degen_rtol": None}, "rtol1e-5": {"degen_rtol": 1e-5},
+             "rtol1e-3_atol0": {"degen_atol": 0.0, "degen_rtol": 1e-3}, "rtol1e-4_atol1e-9": {"degen_atol": 1e-9, "degen_rtol": 1e-4},
+             "rtol1e-6_atol1e-12": {"degen_atol": 1e-12, "degen_rtol": 1e-6}}
+
+
+def degen_thresholds(opts):
+    """(atol, rtol) meant by a bck_options dict: None / absent = the documented defaults eps**0.6, eps**0.4"""
+    atol, rtol = opts.get("degen_atol"), opts.get("degen_rtol")
+    return (EPS ** 0.6 if atol is None else atol), (EPS ** 0.4 if rtol is None else rtol)
+
+
+def wide_spectrum(case):
+    """n simple eigenvalues spanning many orders of magnitude: one of magnitude S (sign bsign), a pair (c g, (c + 1) g) (sign psign)
+    whose gap g = f (atol + rtol S), f < 1, is BELOW the threshold evaluated at the largest eigenvalue but far above the threshold
+    evaluated at the pair itself (rtol (c + 1) g <= g / 90 for rtol <= 1e-3, c <= 10; atol <= g / 50), and n - 3 fillers in geometric
+    progression (ratio >= 3) between the pair and S with signs fsigns.  Returns the ascending list and the two values of the pair."""
+    atol, rtol = degen_thresholds(WIDE_OPTS[case["opts"]])
+    n, S = case["n"], float(case["S"])
+    g = float(case["f"]) * (atol + rtol * S)
+    pair = [case["psign"] * case["c"] * g, case["psign"] * (case["c"] + 1.0) * g]
+    top = (case["c"] + 1.0) * g
+    nf = n - 3
+    fill = [sg * top * (S / top) ** ((t + 1.0) / (nf + 1.0)) for t, sg in zip(range(nf), case["fsigns"])]
+    return sorted(pair + fill + [case["bsign"] * S]), pair
+
 
 class PairLoss:
     """l = sum_i wl_i e_i + sum_i cw_i Re x_i^H W x_i (svd: s_i and Re u_i^H W v_i) with *different* weights for the two members of the
@@ -1227,24 +1272,28 @@ def run_degen_opts(case):
     torch.manual_seed(0)
     g = gen.seeded(case["seed"])
     g2 = gen.seeded(case["seed"] ^ 0x2B5A17C3)
-    n, neig, gap = case["n"], case["neig"], float(case["gap"])
+    wide = case.get("spec") == "wide"
+    wide_lam, wide_pair = wide_spectrum(case) if wide else (None, None)
+    n, neig = case["n"], case["neig"]
+    gap = abs(wide_pair[1] - wide_pair[0]) if wide else float(case["gap"])
     prob, method, hasM = case.get("prob", "eig"), case.get("method", "custom_exacteig"), bool(case.get("M", False))
     order, rows = int(case.get("order", 1)), list(case.get("rows", []))
     late = bool(case.get("late")) and order == 2
     first_graph = order == 2 or bool(case.get("first_graph"))
     dtype = R.DT[case.get("dtype", "f64")]
     low = case["mode"] == "lowest"
-    opts = DEGEN_OPTS[case["opts"]]
-    labels = ["task=degen_opts", "opts=" + case["opts"], "mode=" + case["mode"], "gap=%g" % gap, "neig=%s" % ("n" if neig == n else "<n"),
+    opts = (WIDE_OPTS if wide else DEGEN_OPTS)[case["opts"]]
+    labels = ["task=wide_spectrum" if wide else "task=degen_opts", "opts=" + case["opts"], "mode=" + case["mode"], ("gap=1e%d" % round(math.log10(gap))) if wide else ("gap=%g" % gap), "neig=%s" % ("n" if neig == n else "<n"),
               "do_prob=%s" % prob, "do_method=%s" % method, "do_M=%s" % hasM, "do_dtype=%s" % case.get("dtype", "f64"), "do_order=%d" % order,
               "do_passes=%d%s" % (1 + len(rows), "(late)" if late and rows else ""), "do_first_backward=%s" % ("recording" if first_graph else "plain")]
     base = [1.0, 1.0 + gap] + [2.0 + 0.7 * k for k in range(n - 2)]
     kw = {"method": method, "bck_options": dict(opts)}
     if method == "davidson":
-        kw["min_eps"] = 1e-10
+        # (absolute residual test: 1e-10 is below the rounding floor eps |A| of the residual for |A| = 1e6)
+        kw["min_eps"] = 1e-10 * max(1.0, float(case["S"]) / 1e4) if wide else 1e-10
     kappa = 1.0
     if prob == "eig":
-        lam = torch.tensor(base if low else [-x for x in reversed(base)], dtype=torch.float64)
+        lam = torch.tensor(wide_lam if wide else (base if low else [-x for x in reversed(base)]), dtype=torch.float64)
         Q = R.rand_unitary(g, [], n, dtype)
         A0 = R.herm((Q * lam.to(dtype)) @ R.ct(Q))
         M0 = None
@@ -1278,6 +1327,8 @@ def run_degen_opts(case):
         mm, nn = case["shape"]
         r = min(mm, nn)                                     # == n
         sv = base if low else [4.2 - x for x in reversed(base)]          # ascending, > 0; the pair is the lowest / the uppermost two
+        if wide:
+            sv = [math.sqrt(x) for x in wide_lam]           # (all positive for svd) the thresholds apply to the eigenvalues s^2 of A^H A
         U0 = R.rand_unitary(g, [], mm, dtype)[:, :r]
         V0 = R.rand_unitary(g, [], nn, dtype)[:, :r]
         A0 = (U0 * torch.tensor(sv, dtype=torch.float64).to(dtype)) @ R.ct(V0)
@@ -1298,12 +1349,29 @@ def run_degen_opts(case):
             return S[ps], U[:, ps], R.ct(Vh)[:, ps]
         scale = max(sv) ** 2
     # the thresholds must not cover any pair of selected eigenvalues (for svd neither as singular values nor as eigenvalues s^2)
-    atol = opts.get("degen_atol", EPS ** 0.6)
-    rtol = opts.get("degen_rtol", EPS ** 0.4)
-    emax = max(abs(x) for x in evals_sel)
-    gap_e = min(abs(a - b) for i, a in enumerate(evals_sel) for b in evals_sel[i + 1:])
-    if not min(gap_e, gap) >= 4 * (atol + rtol * max(emax, 1.5)):
-        return discard("gap_within_threshold", labels)
+    if wide:
+        atol, rtol = degen_thresholds(opts)
+        evals_all = [float(x) for x in lam] if prob == "eig" else [x ** 2 for x in sv]     # the spectrum of the eigenproblem solved
+        emax = max(abs(x) for x in evals_sel)
+        # every two retrieved eigenvalues differ by >= 4 x the threshold evaluated at the larger of the two (whichever member of a
+        # pair "relative" refers to, the pair is not degenerate), although the small pair is closer than the threshold evaluated at
+        # the largest retrieved eigenvalue
+        if not all(abs(a - b) >= 4 * (atol + rtol * max(abs(a), abs(b))) for i, a in enumerate(evals_sel) for b in evals_sel[i + 1:]):
+            return discard("gap_within_threshold", labels)
+        gap_e = min(abs(evals_all[i] - b) for i in sel for j, b in enumerate(evals_all) if j != i)      # 1/gap terms of the gradient
+        psel = sorted(sel.index(i) for i in (wide_lam.index(q) for q in wide_pair) if i in sel)     # positions of the small pair among the retrieved
+        big_sel = emax >= 0.99 * float(case["S"])
+        pair = tuple(psel) if len(psel) == 2 else (0, 1)
+        covered = len(psel) == 2 and gap < atol + rtol * emax          # closer than the threshold at the largest retrieved eigenvalue
+        labels = labels + ["w_S=%g" % case["S"], "w_selected=%s%s" % ({0: "no_pair", 1: "half_pair", 2: "pair"}[len(psel)], "+largest" if big_sel else ""),
+                           "w_pair_below_threshold_at_largest=%s" % covered, "w_range=1e%d" % round(math.log10(emax / min(abs(x) for x in evals_sel)))]
+    else:
+        atol = opts.get("degen_atol", EPS ** 0.6)
+        rtol = opts.get("degen_rtol", EPS ** 0.4)
+        emax = max(abs(x) for x in evals_sel)
+        gap_e = min(abs(a - b) for i, a in enumerate(evals_sel) for b in evals_sel[i + 1:])
+        if not min(gap_e, gap) >= 4 * (atol + rtol * max(emax, 1.5)):
+            return discard("gap_within_threshold", labels)
     loss = PairLoss(g, neig, wshape, dtype, pair)
     with warnings.catch_warnings(record=True) as wlist:
         warnings.simplefilter("always")
@@ -1322,6 +1390,20 @@ def run_degen_opts(case):
     # 1e-14 max(|e|, 1): 1e-14 max(|e|,1) / gap): relative accuracy 1e4 eps scale / gap, measured ~ 5e2 eps / gap
     rel1 = 1e-6 + 1e4 * EPS * max(scale, 1.0) * kappa / gap_e
     info = " [bck_options=%r, %s, method %s, M %s, eigenvalue gap %g is not covered by the thresholds]" % (opts, prob, method, hasM, gap_e)
+    if wide:
+        info = (" [bck_options=%r, %s, method %s, M %s; retrieved eigenvalues %s: all simple, every two differ by >= 4 (degen_atol + degen_rtol max(|e_i|, |e_j|)); "
+                "smallest gap %g, largest |e| %g]" % (opts, prob, method, hasM, ", ".join("%.4g" % x for x in evals_sel), gap_e, emax))
+
+    if wide and method == "davidson":
+        # the tolerance assumes eigenvectors accurate to rounding (eps |A| / gap: the search space has reached the full space, n <= 6).
+        # A run that stopped earlier on its residual test (vectors accurate to min_eps / gap only) is not judged: forward accuracy is C05's
+        Md = R.herm(leaves[1]).detach() if (prob == "eig" and hasM) else None
+        for Xx, Xr in zip(outs[1:], routs[1:]):
+            Xx, Xr = Xx.detach(), Xr.detach()
+            MXx = Xx if Md is None else Md @ Xx
+            sin = torch.linalg.vector_norm(Xx - Xr * (Xr.conj() * MXx).sum(0), dim=0)
+            if not float(sin.max()) <= 1e3 * EPS * max(scale, 1.0) * kappa / gap_e:
+                return discard("forward_davidson_not_converged_to_rounding", labels)
 
     def ref_fn(lobj, create_graph=False):
         gs = torch.autograd.grad(lobj(*routs), leaves, retain_graph=True, create_graph=create_graph, allow_unused=True)
@@ -1343,7 +1425,7 @@ def run_degen_opts(case):
         if bad is not None:
             return bad
     if order == 1:
-        return ok(labels, nontrivial=sc > 0)
+        return ok(labels, nontrivial=sc > 0 and (not wide or covered))
     C = [gen.randn(g, x.shape, x.dtype) for x in leaves]
 
     def contract(gs):
@@ -1363,7 +1445,7 @@ def run_degen_opts(case):
     bad, worst = compare(got2, ref2, names, 10 * rel1, "degen_threshold_grad2", labels, info)
     if bad is not None:
         return bad
-    return ok(labels + [margin_label("do_err2/tol", worst)], nontrivial=sc > 0)
+    return ok(labels + [margin_label("do_err2/tol", worst)], nontrivial=sc > 0 and (not wide or covered))
 
 
 @st.composite
@@ -1387,10 +1469,38 @@ def degen_opts_st(draw, tier="quick"):
     return case
 
 
+@st.composite
+def wide_spectrum_st(draw, tier="quick"):
+    """spectra spanning 2..8 orders of magnitude with default and caller-supplied thresholds (see wide_spectrum)"""
+    n = draw(st.integers(3, 6))
+    prob = draw(st.sampled_from(["eig", "eig", "eig", "svd"]))
+    method = draw(st.sampled_from(["custom_exacteig", "custom_exacteig", "davidson"]))
+    order = draw(st.sampled_from([1, 1, 1, 2]))
+    rows = [draw(st.sampled_from(PAIR_ROW_KINDS)) for _ in range(draw(st.sampled_from([0, 0, 1, 2])))]
+    pos = prob == "svd" or draw(st.sampled_from([True, False, False]))          # svd: eigenvalues s^2 > 0
+    case = {"spec": "wide", "n": n, "neig": draw(st.sampled_from(sorted({n, n, max(2, n - 1), min(3, n)}))),
+            "mode": draw(st.sampled_from(["lowest", "uppest", "uppermost"])),
+            "S": draw(st.sampled_from([1e2, 1e4, 1e4, 1e6])), "f": draw(st.sampled_from([0.02, 0.1, 0.5])), "c": draw(st.sampled_from([0.5, 2.0, 10.0])),
+            "psign": 1 if pos else draw(st.sampled_from([1, -1])), "bsign": 1 if pos else draw(st.sampled_from([1, -1])),
+            "fsigns": [1 if pos else draw(st.sampled_from([1, -1])) for _ in range(n - 3)],
+            "opts": draw(st.sampled_from(sorted(WIDE_OPTS))),
+            "prob": prob, "method": method, "order": order, "rows": rows, "late": bool(rows) and order == 2 and draw(st.booleans()),
+            "first_graph": order == 1 and draw(st.sampled_from([True, False, False])),
+            "dtype": "f64" if method == "davidson" else draw(st.sampled_from(["f64", "f64", "c128"])),
+            "seed": draw(st.integers(0, 2 ** 31 - 1))}
+    if prob == "eig":
+        case["M"] = draw(st.booleans())
+        case["mkappa"] = draw(st.sampled_from([2.0, 4.0]))
+    else:
+        case["shape"] = draw(st.sampled_from([[n, n], [n, n + 1], [n + 2, n]]))
+    return case
+
+
 def tasks(tier):
     known = _known_sites()
     return [
         Task("eig", strategy=eig_case_st(tier, known=known), run=run_eig, examples={"quick": 4800, "thorough": 130000}),
         Task("svd", strategy=svd_case_st(tier, known=known), run=run_svd, examples={"quick": 2400, "thorough": 65000}),
         Task("degen_opts", strategy=degen_opts_st(tier), run=run_degen_opts, examples={"quick": 480, "thorough": 6000}),
+        Task("wide_spectrum", strategy=wide_spectrum_st(tier), run=run_degen_opts, examples={"quick": 640, "thorough": 8000}),
     ]
